@@ -30,7 +30,7 @@ abbrev tk (sc : Scalar) (e : Expr) : List Tok := tokExprC sc e
 /-- tokens of the operands of an n-ary node after the first: `op X₁ op X₂ …` -/
 def tkTail (sc : Scalar) (o : P) (p : Nat) : List Expr → List Tok
   | [] => []
-  | x :: xs => .p o :: parenT (decide (x.prec ≥ p)) (tk sc x) ++ tkTail sc o p xs
+  | x :: xs => .p o :: parenT (decide ((precF x) ≥ p)) (tk sc x) ++ tkTail sc o p xs
 
 def tkArgs (sc : Scalar) : List Expr → List Tok
   | [] => []
@@ -48,24 +48,24 @@ theorem tk_sym (sc n dt) : tk sc (.sym n dt) = [.id n] := by
 theorem tk_mi (sc s z gi) : tk sc (.mi s z gi) = tk sc gi := by
   simp [tk, tokExprC, piecesC]
 
-theorem tk_neg (sc a) : tk sc (.neg a) = .p .minus :: parenT (decide (a.prec ≥ 3)) (tk sc a) := by
+theorem tk_neg (sc a) : tk sc (.neg a) = .p .minus :: parenT (decide ((precF a) ≥ 3) || startsWith '-' (piecesC sc a)) (tk sc a) := by
   simp [tk, tokExprC, piecesC, toks_parenIf]
 
-theorem tk_not (sc a) : tk sc (.not a) = .p .bang :: parenT (decide (a.prec ≥ 3)) (tk sc a) := by
+theorem tk_not (sc a) : tk sc (.not a) = .p .bang :: parenT (decide ((precF a) ≥ 3) || startsWith '!' (piecesC sc a)) (tk sc a) := by
   simp [tk, tokExprC, piecesC, toks_parenIf]
 
 theorem tk_bin (sc op a b) : tk sc (.bin op a b) =
-    parenT (decide (a.prec ≥ op.prec)) (tk sc a) ++ .p (opTok op) :: parenT (decide (b.prec ≥ op.prec)) (tk sc b) := by
+    parenT (decide ((precF a) ≥ op.prec)) (tk sc a) ++ .p (opTok op) :: parenT (decide ((precF b) ≥ op.prec)) (tk sc b) := by
   simp [tk, tokExprC, piecesC, toks_parenIf, toks_append]
 
 theorem tk_cond (sc c t f) : tk sc (.cond c t f) =
-    parenT (decide (c.prec ≥ 13)) (tk sc c) ++ .p .quest :: (parenT (decide (t.prec ≥ 13)) (tk sc t)
-      ++ .p .colon :: parenT (decide (f.prec ≥ 13)) (tk sc f)) := by
+    parenT (decide ((precF c) ≥ 13)) (tk sc c) ++ .p .quest :: (parenT (decide ((precF t) ≥ 13)) (tk sc t)
+      ++ .p .colon :: parenT (decide ((precF f) ≥ 13)) (tk sc f)) := by
   simp [tk, tokExprC, piecesC, toks_parenIf, toks_append]
 
 theorem toks_joinNary (sc : Scalar) (o : P) (p : Nat) (a : Expr) (as : List Expr) :
     toks (joinP [sp, pp o, sp] (piecesNary sc p (a :: as)))
-      = parenT (decide (a.prec ≥ p)) (tk sc a) ++ tkTail sc o p as := by
+      = parenT (decide ((precF a) ≥ p)) (tk sc a) ++ tkTail sc o p as := by
   induction as generalizing a with
   | nil => simp [piecesNary, joinP, tkTail, toks_parenIf, tk, tokExprC]
   | cons b bs ih =>
@@ -74,12 +74,12 @@ theorem toks_joinNary (sc : Scalar) (o : P) (p : Nat) (a : Expr) (as : List Expr
     simp [joinP, toks_append, toks_parenIf, tkTail, this, tk, tokExprC]
 
 theorem tk_sum (sc a as) : tk sc (.sum (a :: as)) =
-    parenT (decide (a.prec ≥ 5)) (tk sc a) ++ tkTail sc .plus 5 as := by
+    parenT (decide ((precF a) ≥ 5)) (tk sc a) ++ tkTail sc .plus 5 as := by
   have := toks_joinNary sc .plus 5 a as
   simpa [tk, tokExprC, piecesC] using this
 
 theorem tk_prod (sc a as) : tk sc (.prod (a :: as)) =
-    parenT (decide (a.prec ≥ 4)) (tk sc a) ++ tkTail sc .star 4 as := by
+    parenT (decide ((precF a) ≥ 4)) (tk sc a) ++ tkTail sc .star 4 as := by
   have := toks_joinNary sc .star 4 a as
   simpa [tk, tokExprC, piecesC] using this
 
@@ -212,11 +212,11 @@ theorem post_stop {k b rest} (hk : 1 ≤ k) (h : headAll postStopT rest = true) 
 structure RT (sc : Scalar) (e : Expr) : Prop where
   full : ∀ rest F, headAll closedT rest = true → 6 * (tk sc e).length + 3 ≤ F →
       parseCond F (tk sc e ++ rest) = some (eraseC sc e, rest)
-  bin : e.prec < 13 → ∀ m rest k res F, m ≤ lvP e.prec →
-      headAll (noTighterT (lvP e.prec)) rest = true →
+  bin : (precF e) < 13 → ∀ m rest k res F, m ≤ lvP (precF e) →
+      headAll (noTighterT (lvP (precF e))) rest = true →
       loopBin k m (eraseC sc e) rest = some res → k + 6 * (tk sc e).length + 1 ≤ F →
       parseBin F m (tk sc e ++ rest) = some res
-  un : e.prec ≤ 2 → ∀ rest F, headAll postStopT rest = true → 6 * (tk sc e).length ≤ F →
+  un : (precF e) ≤ 2 → ∀ rest F, headAll postStopT rest = true → 6 * (tk sc e).length ≤ F →
       parseUnary F (tk sc e ++ rest) = some (eraseC sc e, rest)
   /-- the text is not empty and does not begin with `)` -/
   hd : ∃ t r, tk sc e = t :: r ∧ t ≠ .p .rpar
@@ -239,7 +239,7 @@ theorem paren_un {sc x} (hx : RT sc x) {rest F} (hps : headAll postStopT rest = 
 
 /-- operand of a binary operator: parenthesised, or of a level ≥ `m` -/
 theorem opl {sc x} (hx : RT sc x) {p : Bool} {m rest k res F}
-    (hp : p = false → x.prec < 13 ∧ m ≤ lvP x.prec ∧ headAll (noTighterT (lvP x.prec)) rest = true)
+    (hp : p = false → (precF x) < 13 ∧ m ≤ lvP (precF x) ∧ headAll (noTighterT (lvP (precF x))) rest = true)
     (hps : headAll postStopT rest = true)
     (hloop : loopBin k m (eraseC sc x) rest = some res)
     (hF : k + 6 * (parenT p (tk sc x)).length + 1 ≤ F) :
@@ -258,7 +258,7 @@ theorem opl {sc x} (hx : RT sc x) {p : Bool} {m rest k res F}
 
 /-- operand of a unary operator: parenthesised, or a postfix/primary expression -/
 theorem oul {sc x} (hx : RT sc x) {p : Bool} {rest F}
-    (hp : p = false → x.prec ≤ 2) (hps : headAll postStopT rest = true)
+    (hp : p = false → (precF x) ≤ 2) (hps : headAll postStopT rest = true)
     (hF : 6 * (parenT p (tk sc x)).length ≤ F) :
     parseUnary F (parenT p (tk sc x) ++ rest) = some (eraseC sc x, rest) := by
   cases p with
